@@ -6,7 +6,7 @@ Extraction "BigInt/extracted/bigint.ml"
   LG R IMM_MAX IMM_MIN LG_IMMED HALF_MAX dec_rio dec_rim bpd_table
   bintNew bintNegate bintAbs bintPlus bintMinus bintTimes bintDivide bintDivide_ok bintDivide_stats bintMod
   bintEQ bintLT bintGT bintLE bintGE bintNE bintIsNeg bintIsZero bintIsPos bintIsSmall
-  bintLength bintBit bintShift bintToString bintScanFrString bintRadixScanFrString
+  bintLength bintBit bintShift bintShiftRem shiftrem_defined bintToString bintScanFrString bintRadixScanFrString
   bintFrPlacev bintFrPlacevS bintToPlacevS
   fiBIntFrInt fiBIntToSInt fiBIntIsSingle fiBIntGcd fiBIntSIPower fiBIntBIPower fiBIntPowerMod
   fiBIntMod fiBIntRem fiBIntQuo fiBIntDivide fiBIntTimesPlus
